@@ -170,3 +170,21 @@ Fixpoint replay_from (fuel : nat) (off : N) (suf : bytes) : list bytes * verdict
 Definition replay (data : bytes) : list bytes * verdict := replay_from (S (length data)) 0 data.
 
 End Tan.
+
+(* ---- the save path of tan: fsync and error rules (internal/tan/logdb.go, db.go) ----
+   db.write reports per update whether the log has to be fsynced (entries, a snapshot
+   record or a term/vote change: yes; commit index only: no).  [needs] lists that flag for
+   the updates of one SaveRaftState call, in order.
+   multiplexed mode (concurrentSaveState): all updates go to one log file, which is fsynced
+   once after the loop iff [tan_batch_sync needs]; the shape of the accumulation is
+   regenerated from the source (c10_tanmux_batch_sync_accumulates: the flag is OR-ed into
+   syncLog; otherwise the last update alone decides). *)
+Definition tan_batch_sync (needs : list bool) : bool :=
+  if c10_tanmux_batch_sync_accumulates then existsb (fun b => b) needs else last needs false.
+(* regular mode (sequentialSaveState): update i is fsynced iff it needs it *)
+Definition tan_seq_sync (needs : list bool) : list bool :=
+  if c10_tan_seq_sync_each_update then needs else map (fun _ => false) needs.
+(* db.doWriteLocked: an error of the log rollover (makeRoomForWrite: fsync of the current log,
+   index file, new log file, MANIFEST edit) fails the write *)
+Definition tan_write_result (rollover_failed write_failed : bool) : bool :=   (* true = success *)
+  negb ((c10_tan_rollover_error_propagates && rollover_failed) || write_failed).
